@@ -25,7 +25,9 @@ RxLoops == {"rx_" \o a \o "_" \o c : a \in RxApis, c \in RxCtors}
 RecLoops == {"recursion", "mutual", "ctor_recursion", "ctor_mutual", "method_recursion", "ctor_method_mutual"}
 BaseLoops == {"while", "for", "dowhile", "labelled", "regex_backtrack", "regex_loop", "regex_lookahead",
               "nested_eval_loop", "regex_short_runs", "regex_many_attempts", "regex_lookbehind_in_loop",
-              "forof_growing", "switch_continue", "logical_for"} \cup RecLoops
+              "forof_growing", "switch_continue", "logical_for",
+              \* built-ins driving built-ins (a bound forEach / map given to forEach / map, four levels): no instruction is executed
+              "native_nest", "native_nest_map"} \cup RecLoops
 \* a value created by one evaluation and used by a later one on the same context, after the first one's deadline is
 \* long past on the (virtual) clock: the later evaluation has its own budget and must finish normally
 CarryLoops == {"carry_regex_literal", "carry_regex_ctor", "carry_regex_in_closure", "carry_function", "carry_string_method_regex",
